@@ -245,16 +245,20 @@ Section WithEnv.
     intros Hn Ha Hs. pose proof (pow2_pos n ltac:(lia)) as HP.
     unfold bvwf in *.
     destruct s as [k|st]; cbn [bv_lshl bv_den] in *.
-    - unfold g_lshl_1, g_lshl_2.
+    - unfold g_lshl_1.
       destruct (Z.eqb_spec k 0) as [->|Hk0].
       { destruct (Z.ltb_spec 0 n); [|lia]. rewrite Z.pow_0_r, Z.mul_1_r, Z.mod_small; auto. }
-      destruct (Z.leb_spec n k) as [Hge|Hlt].
-      { destruct (Z.ltb_spec k n); [lia|]. rewrite mk_int_den by lia. apply Z.mod_0_l; lia. }
-      destruct (Z.ltb_spec k n); [|lia].
+      assert (Hbig : n <= k -> (den a * 2 ^ k) mod 2 ^ n = 0).
+      { intros Hge. replace k with (n + (k - n)) by lia. rewrite Z.pow_add_r by lia.
+        replace (den a * (2 ^ n * 2 ^ (k - n))) with (den a * 2 ^ (k - n) * 2 ^ n) by ring.
+        apply Z.mod_mul. lia. }
+      destruct (g_lshl_2 k n) eqn:G.
+      { (* the guard only fires for shifts of at least the size *)
+        unfold g_lshl_2 in G. destruct (Z.ltb_spec k n); [lia|]. rewrite mk_int_den by lia. apply Z.mod_0_l; lia. }
       destruct a as [x|t]; cbn [bv_den eval binop_eval].
-      + unfold r_lshl_1. rewrite mk_int_den by lia. rewrite Z.shiftl_mul_pow2 by lia. reflexivity.
-      + unfold bvshl, bvmod. rewrite (Z.mod_small k) by lia.
-        destruct (Z.ltb_spec k n); [reflexivity|lia].
+      + unfold r_lshl_1. rewrite mk_int_den by lia. rewrite Z.shiftl_mul_pow2 by lia.
+        destruct (Z.ltb_spec k n); [reflexivity|]. apply (Hbig ltac:(lia)).
+      + unfold bvshl, bvmod. rewrite (Z.mod_small k) by lia. reflexivity.
     - cbn [eval binop_eval]. rewrite z3_of_den by assumption. reflexivity.
   Qed.
 
@@ -286,15 +290,16 @@ Section WithEnv.
     intros Hn Ha Hs. pose proof (pow2_pos n ltac:(lia)) as HP.
     unfold bvwf in *.
     destruct s as [k|st]; cbn [bv_lshr bv_den] in *.
-    - unfold g_lshr_1, g_lshr_2.
+    - unfold g_lshr_1.
       destruct (Z.eqb_spec k 0) as [->|Hk0].
       { destruct (Z.ltb_spec 0 n); [|lia]. rewrite Z.pow_0_r, Z.div_1_r; auto. }
       destruct a as [x|t]; cbn [bv_den eval binop_eval] in *.
       + unfold r_lshr_1. rewrite mk_int_den, py_shr_div by lia.
         rewrite Z.mod_small by (apply div_pow2_range; lia).
         destruct (Z.ltb_spec k n); [reflexivity|]. apply (div_pow2_small x k n); lia.
-      + destruct (Z.leb_spec n k) as [Hge|Hlt].
-        { destruct (Z.ltb_spec k n); [lia|]. rewrite mk_int_den by lia. apply Z.mod_0_l; lia. }
+      + destruct (g_lshr_2 k n) eqn:G.
+        { (* the guard only fires for shifts of at least the size *)
+          unfold g_lshr_2 in G. destruct (Z.ltb_spec k n); [lia|]. rewrite mk_int_den by lia. apply Z.mod_0_l; lia. }
         cbn [bv_den eval binop_eval]. unfold bvlshr, bvmod. rewrite (Z.mod_small k) by lia. reflexivity.
     - cbn [eval binop_eval]. rewrite z3_of_den by assumption. reflexivity.
   Qed.
@@ -558,7 +563,7 @@ Section WithEnv.
       apply Z.mod_small. pose proof (Z.mod_pos_bound x y ltac:(lia)). lia.
     - eexists; split; [reflexivity|]. cbn [bv_den]. destruct (Z.eqb_spec y 0); [lia|].
       destruct (is_power_of_two y) eqn:Hp.
-      + destruct (pow2_char y Hp) as [Hy Hy2]. rewrite bit_length_log2 by assumption.
+      + destruct (pow2_char y Hp) as [Hy Hy2]. unfold e_mod_bitsize. rewrite bit_length_log2 by assumption.
         cbv zeta. cbn [bv_den eval]. unfold bvzext, bvextract.
         rewrite Z.pow_0_r, Z.div_1_r. replace (Z.log2 y - 1 - 0 + 1) with (Z.log2 y) by lia.
         rewrite <- Hy2. reflexivity.
